@@ -32,6 +32,9 @@ structure Win (s : St) : Prop where
   hE : s.enqTail < s.head + 2147483648
   hD : s.deqHead ≤ s.head + 2147483648
   noABA : ∀ t h w, s.thr t = .cChkTail h w → s.tail < h + M32
+  /-- fewer than 2^31 events were consumed past a producer's own between its publication and its length measurement
+      (otherwise the `as i32` of `len_after_publishing` turns the negative distance into a large positive one) -/
+  noLag : ∀ t id, s.thr t = .pLen id → s.head ≤ id + 1 + 2147483648
 
 @[simp] theorem img_N (s : St) : (img s).N = s.N := rfl
 @[simp] theorem img_head (s : St) : (img s).head = wrap s.head := rfl
@@ -73,8 +76,7 @@ theorem sim_pLoadHead (s : St) (t v id : Nat) (rsv : Bool) (h : Inv s) (w : Win 
   by_cases hc : id - s.head < s.N
   · simp only [hc, decide_true, ↓reduceIte]
     cases rsv
-    · have : cadd (id - s.head) 1 = some (id - s.head + 1) := by unfold cadd; rw [if_pos (by omega)]
-      simp only [this, Bool.false_eq_true, ↓reduceIte]
+    · simp only [Bool.false_eq_true, ↓reduceIte]
       close_st t
     · simp only [↓reduceIte]
       close_st t
@@ -118,6 +120,31 @@ theorem sim_pPublish (s : St) (t v id len : Nat) (h : Inv s) (w : Win s) (hl : s
     close_st t
   · have : ¬ (wrap s.tail = wrap id) := fun x => hc (e.mp x)
     simp only [hc, this, ↓reduceIte]
+
+theorem lenAfter32_wrap (id hd : Nat) (h1 : id + 1 < hd + 2147483648) (h2 : hd ≤ id + 1 + 2147483648) :
+    lenAfter32 (wrap id) (wrap hd) = max 1 (id + 1 - hd) := by
+  unfold lenAfter32
+  rw [wadd_wrap_one]
+  by_cases hc : hd ≤ id + 1
+  · rw [wsub_wrap (id + 1) hd hc (by omega)]
+    by_cases hz : id + 1 - hd = 0
+    · simp [posI32, hz]
+    · have : posI32 (id + 1 - hd) = true := by rw [posI32_iff]; omega
+      simp only [this, ↓reduceIte]; omega
+  · rw [wsub_wrap_neg (id + 1) hd (by omega) (by omega)]
+    have : posI32 (M32 - (hd - (id + 1))) = false := by
+      cases hp : posI32 (M32 - (hd - (id + 1)))
+      · rfl
+      · rw [posI32_iff] at hp; omega
+    simp only [this, Bool.false_eq_true, ↓reduceIte]; omega
+
+theorem sim_pLen (s : St) (t id : Nat) (h : Inv s) (w : Win s) (hl : s.thr t = .pLen id) :
+    step32 (img s) t = some (img (step s t)) := by
+  have := h.lenOk t id hl
+  have := h.hHT; have := h.hTN; have := w.hNs
+  have e := lenAfter32_wrap id s.head (by omega) (w.noLag t id hl)
+  simp only [step32, step, img_thr, hl, imgLoc, img_head, e]
+  close_st t
 
 theorem sim_cFetch (s : St) (t : Nat) (hl : s.thr t = .cFetch) :
     step32 (img s) t = some (img (step s t)) := by
@@ -265,6 +292,7 @@ theorem sim_step (s : St) (t : Nat) (h : Inv s) (w : Win s) (hni : NotIdx (s.thr
   | pRecede v id rsv wg => exact sim_pRecede s t v id rsv wg h w hl
   | pWrite v id len => exact sim_pWrite s t v id len w hl
   | pPublish v id len => exact sim_pPublish s t v id len h w hl
+  | pLen id => exact sim_pLen s t id h w hl
   | rPub id idx g => exact absurd hl (hni.1 id idx g)
   | rCan id idx g => exact absurd hl (hni.2 id idx g)
   | cFetch => exact sim_cFetch s t hl
